@@ -85,10 +85,24 @@ fn zero_durations(j: &mut serde_json::Value) {
     }
 }
 
+/// JSON text with object keys sorted (independent of serde_json's map flavour)
+pub fn canon_json(j: &serde_json::Value) -> String {
+    match j {
+        serde_json::Value::Object(m) => {
+            let mut keys: Vec<&String> = m.keys().collect();
+            keys.sort();
+            let parts: Vec<String> = keys.iter().map(|k| format!("{}:{}", serde_json::Value::String((*k).clone()), canon_json(&m[*k]))).collect();
+            format!("{{{}}}", parts.join(","))
+        }
+        serde_json::Value::Array(a) => format!("[{}]", a.iter().map(canon_json).collect::<Vec<_>>().join(",")),
+        other => other.to_string(),
+    }
+}
+
 pub fn report_json(r: &egglog_reports::RunReport) -> String {
     let mut j = serde_json::to_value(r).unwrap_or(serde_json::Value::Null);
     zero_durations(&mut j);
-    j.to_string()
+    canon_json(&j)
 }
 
 /// Run `text` command by command. `file` is the name handed to the parser (spans, include resolution).
